@@ -4,11 +4,14 @@
                               by the lex hook; answer = the AST in the same
                               s-expression form as the parse hook, or
                               ("perr" "Variant" sym...), or ("fuel")
-   (depth (tok ...))          ("some" n) / ("none"): least fuel with which
-                              [run _ CExpression] does not run out = depth of
-                              the deepest chain of nested parser calls
-                              (loop iterations count as calls); bounded by
-                              20 * tokens + 20 (ParserProofs.run_total)
+   (depth (tok ...))          n = least fuel with which [run _ CExpression]
+                              does not run out = depth of the deepest chain of
+                              nested parser-model calls (C08_fuel_consumed_least).
+                              Every Rust call is one model call and every
+                              iteration of a Rust loop is one more, so n is an
+                              upper bound of the native recursion depth of
+                              parse_expression on that stream; n <= 20*tokens+20
+                              (C08_parser_terminates)
    (table texp)               (min-tokens min-expected full-tokens
                               full-expected grouping): [complete_parens
                               (print_min e)], the AST the table assigns to it,
@@ -166,7 +169,7 @@ Definition run_lang : dispatcher := fun op args =>
   else if opeq op "depth" then
     match args with
     | [XL l] => match as_toks l with
-                | Some ts => Some (sx_opt (fun n => sx_N (N.of_nat n)) (fuel_consumed ts))
+                | Some ts => Some (sx_N (N.of_nat (fuel_consumed ts)))
                 | None => Some sx_bad end
     | _ => Some sx_bad
     end
